@@ -1,3 +1,6 @@
 package peer
 
-const c31Steps = 7
+const (
+	c31Steps = 7
+	c32Steps = 7
+)
